@@ -108,3 +108,6 @@ Example C06_chain_nonvacuous :
   (* a hash accepted a second time is caught by the side condition *)
   fresh_txs c 8 88 [(12, 1, 0)] = false.
 Proof. vm_compute. repeat split. Qed.
+
+(* assumptions of the theorems above that had no report next to them *)
+Print Assumptions C06_lookups_refuted_without_fresh_hashes.
